@@ -2,7 +2,7 @@
    encode the observation.  [run] is what the extracted CLI calls; [judge] applies the
    executable property predicates of Spec.v to an observation made on the IMPLEMENTATION. *)
 From Coq Require Import List Ascii String ZArith Bool.
-From Model Require Import Bytes Wire Glob StaticRoute RoundRobin Pins Resolver SendFault Codec Message Spec SpecC14 SpecC16 SpecC15 SpecC19 SpecC05.
+From Model Require Import Bytes Wire Glob StaticRoute RoundRobin Pins Resolver SendFault Codec Message Spec SpecC14 SpecC16 SpecC15 SpecC19 SpecC05 SpecC20.
 Import ListNotations.
 
 Definition decode_error : list bytes := [s2b "decode-error"].
@@ -104,19 +104,13 @@ Definition d_cached : dec (option conn_script) :=
   dlet o := d_bytes in
   if beq o (s2b "absent") then d_ret None
   else dlet s := d_script in d_ret (Some s).
-Definition count_ev (f : io_event -> bool) (tr : list io_event) : nat := List.length (filter f tr).
-Definition is_write (c : nat) (ok : bool) (e : io_event) : bool :=
-  match e with EWrite c' ok' => Nat.eqb c c' && Bool.eqb ok ok' | _ => false end.
-Definition is_close (c : nat) (e : io_event) : bool :=
-  match e with EClose c' => Nat.eqb c c' | _ => false end.
-Definition is_dial_ok (e : io_event) : bool := match e with EDial (Some _) => true | _ => false end.
-(* observation of one send: ok, successful dials, (ok writes, failed writes, closes) of the two
-   cached connections, successful writes per dialed connection (ids 2 .. next-1) *)
+(* observation of one send: see SpecC20.send_obs *)
+Definition e_counts (c : conn_counts) : list bytes := [e_nat (cc_ok c); e_nat (cc_fail c); e_nat (cc_close c)].
+Definition e_obs (o : send_obs) : list bytes :=
+  [e_bool (so_ok o); e_nat (so_dials o)] ++ e_counts (so_c0 o) ++ e_counts (so_c1 o) ++
+  e_list (fun n => [e_nat n]) (so_dialled o).
 Definition e_send_obs (next : nat) (tr : list io_event) (ok : bool) : list bytes :=
-  [e_bool ok; e_nat (count_ev is_dial_ok tr)] ++
-  flat_map (fun c => [e_nat (count_ev (is_write c true) tr); e_nat (count_ev (is_write c false) tr);
-                      e_nat (count_ev (is_close c) tr)]) [0%nat; 1%nat] ++
-  e_list (fun c => [e_nat (count_ev (is_write c true) tr)]) (seq 2 (next - 2)).
+  e_obs (obs_of_trace next tr ok).
 Definition with_plan (w : world) (plan : list conn_script) : world :=
   {| w_conns := w_conns w; w_dials := map Some plan ++ [None; None; None; None]; w_next := w_next w |}.
 Fixpoint sendfault_client (plans : list (list conn_script)) (f : failover) (w : world) : list bytes :=
@@ -260,6 +254,26 @@ Definition judge_resolver (args : list bytes) : list bytes :=
   | None => decode_error
   end.
 
+(* sendfault: case, then per send the counts of e_obs *)
+Definition d_counts : dec conn_counts :=
+  dlet a := d_nat in dlet b := d_nat in dlet c := d_nat in d_ret {| cc_ok := a; cc_fail := b; cc_close := c |}.
+Definition d_send_obs : dec send_obs :=
+  dlet ok := d_bool in dlet d := d_nat in dlet c0 := d_counts in dlet c1 := d_counts in dlet l := d_list d_nat in
+  d_ret {| so_ok := ok; so_dials := d; so_c0 := c0; so_c1 := c1; so_dialled := l |}.
+Definition d_sendfault_case : dec nat :=
+  dlet kind := d_bytes in dlet n := d_nat in
+  dlet pri := d_cached in dlet sec_present := d_bool in dlet sec := d_cached in
+  dlet plans := d_rep (d_list d_script) n in d_ret n.
+Definition judge_sendfault (args : list bytes) : list bytes :=
+  match d_sendfault_case args with
+  | Some (n, obs) =>
+      match run_dec (d_rep d_send_obs n) obs with
+      | Some l => ok_tok (forallb judge_C20_obs l)
+      | None => decode_error
+      end
+  | None => decode_error
+  end.
+
 Definition judge (comp : bytes) (args : list bytes) : list bytes :=
   if beq comp (s2b "findroute") then judge_findroute args
   else if beq comp (s2b "codec") then judge_codec args
@@ -267,4 +281,5 @@ Definition judge (comp : bytes) (args : list bytes) : list bytes :=
   else if beq comp (s2b "rr") then judge_rr args
   else if beq comp (s2b "pins") then judge_pins args
   else if beq comp (s2b "resolver") then judge_resolver args
+  else if beq comp (s2b "sendfault") then judge_sendfault args
   else [s2b "unknown-component"].
